@@ -59,7 +59,19 @@ def body_plan(kind):
         return [('write', 'X' * BIG), ('abort', 'KeyboardInterrupt')]
     if kind == 'closes':         # the body closes the part file itself (a nested `with f:`) and ends normally
         return [('write', 'written-then-closed-by-the-body\n'), ('close',)]
+    if kind == 'samelen':        # as long as the old content, on a file system with coarse timestamps (1-2 s ticks on ext3,
+        # FAT, many network mounts): the part file carries the very mtime of the destination it is about to replace
+        return [('write', 'NEW-CONTENT-9876543210\n'), ('flush',), ('stamp',)]
     raise AssertionError(kind)
+
+
+def stamp_like_dest(f, dest):
+    """Both files were last written within one tick of the file system's clock."""
+    try:
+        st = os.stat(dest)
+    except OSError:
+        return
+    os.utime(f.fileno(), ns=(st.st_atime_ns, st.st_mtime_ns))
 
 
 def expected_content(plan):
@@ -109,6 +121,12 @@ def configs(tier):
             out.append(dict(c, body='closes'))
             if c['overwrite']:
                 out.append(dict(c, dest_name='n' * 251 + '.txt'))
+    # new content exactly as long as the old one, written within the same tick of a coarse file-system clock
+    for c in base:
+        if c['file_perms'] is None and c['body'] == 'one' and c['overwrite'] and c['dest_present']:
+            out.append(dict(c, body='samelen'))
+            out.append(dict(c, body='samelen', api='manual'))
+            out.append(dict(c, body='samelen', api='reuse'))
     # other ways of using the class than one `with atomic_save(...)`: ONE AtomicSaver object used for two saves in a row
     # ('reuse': first a complete save of FIRST, then the body), the documented explicit form setup() / part_file.write /
     # __exit__(None, None, None) ('manual'), and an explicit-form saver that is abandoned after a partial write and
@@ -240,6 +258,8 @@ class Scenario:
                         f.seek(st[1])
                     elif st[0] == 'close':
                         f.close()
+                    elif st[0] == 'stamp':
+                        stamp_like_dest(f, self.dest)
                     elif st[0] == 'abort':
                         raise {'SystemExit': SystemExit, 'KeyboardInterrupt': KeyboardInterrupt}[st[1]]('leaving')
                     env.decide({'name': 'checkpoint', 'key': ('body', i)})
@@ -260,6 +280,8 @@ class Scenario:
                 f.flush()
             elif st[0] == 'seek':
                 f.seek(st[1])
+            elif st[0] == 'stamp':
+                stamp_like_dest(f, self.dest)
             env.decide({'name': 'checkpoint', 'key': ('body', i)})
 
     def run_api(self, env, fileutils, kw):
